@@ -319,3 +319,9 @@ package avfs
 //@   ensures[C13,C07] (r0 == "" && r1 == path) || (len(r0) + 1 + len(r1) == len(path) && r0 == substr(path, 0, len(r0)) && r1 == substr(path, len(r0)+1, len(path)))
 //@   loop 0 invariant[C13,C07] -1 <= i && i < len(path) && l - 1 <= i && 0 <= l
 //@   modifies nothing
+
+// The process-wide umask (a package-level variable behind a package-level lock): its value is not
+// modelled, a call only yields some mode.
+//@ func UMask
+//@   trusted
+//@   modifies nothing
